@@ -144,7 +144,9 @@ def operator(signature, precedence, associativity, awaited=True, pure=True, toke
     def decorator(fn):
         Class.fn = fn
         Class.__name__ = fn.__name__
-        Class.return_type = typing.get_type_hints(fn).get("return")
+        # Operators that only pass their operand through ('x+', '#x', '@x', ...) are not
+        # annotated; what they pass through is a number
+        Class.return_type = typing.get_type_hints(fn).get("return", int)
         return Class
 
     return decorator
